@@ -175,6 +175,24 @@ func main() {
 				if os.Getenv("ZCHECK_RETURNS") == "guards" {
 					forms = r.mustPassGuards(fn)
 				}
+				if os.Getenv("ZCHECK_RETURNS") == "allguards" {
+					forms = r.P.Info(fn).RejectConds()
+					seen := map[string]bool{}
+					var u []string
+					for _, f := range forms {
+						if !seen[f] {
+							seen[f] = true
+							u = append(u, f)
+						}
+					}
+					forms = u
+				}
+				if os.Getenv("ZCHECK_RETURNS") == "branches" {
+					forms = plainBranches(r, fn)
+					if len(forms) == 0 {
+						forms = []string{""} // the function is known and has no plain branch
+					}
+				}
 				if os.Getenv("ZCHECK_RETURNS") == "effects" {
 					forms = nil
 					for c := range r.mustPassEffects(fn) {
